@@ -5,5 +5,7 @@ XView == <<state, xstate>>          \* obs / xobs are observations, not state
 CMsgDom == {}
 CTextDom == {}
 CHretsFail == {-3}
+CRetsZero == {0}
+CRetsBoth == {0, -1}
 CHretsBoth == {0, -3}
 =============================================================================
